@@ -39,8 +39,8 @@ P = {
     "C11": ("TLC trace validation of filter decisions (first applicable filter wins) against the Pipeline filter model",
             "Thresholds are placed on and next to every boundary of the reads used; the destination of each read (main output, redirect file, discarded) is validated by TLC against the ordered filter model.",
             "Expected-error comparisons use exactly representable thresholds.", "5/C11"),
-    "C12": ("TLC model checking of the Runner protocol with fault constants incl. liveness under fairness + fault enumeration replayed into the real code (virtual and real processes)",
-            "Every truncation point / single-record corruption of small inputs is executed with 1..3 cores (all virtual schedules sampled from TLC, plus real processes); exit status, message, termination and partial output are validated against the fault model.",
+    "C12": ("TLC model checking of the Runner protocol with fault constants incl. liveness under fairness + TLC fault behaviours replayed step by step into the real runner + fault enumeration executed in the real code (virtual scheduler and real processes) and validated as traces",
+            "Every truncation point / single-record corruption of small inputs is executed with 1..3 cores (adversarial virtual schedules, plus real processes); exit status, message, termination and partial output are validated by TLC against the fault model (Trace_Fault), the hook-event logs against Runner (Trace_Runner / Trace_RunnerMP). Behaviours that TLC simulates for Runner with a fault chosen in the initial state (bad chunk i, reader failure at chunk k, start failure) are executed action by action by the real runner on an input constructed to carry exactly that fault.",
             "Well-formedness decided on line structure; a 30 s bound stands for 'never hangs' in real-process runs.", "5/C12"),
     "C13": ("TLC exhaustive check scan-form == declarative BWA definition; TLC trace validation of quality_trim_index / nextseq_trim_index calls and -q/--nextseq-trim runs",
             "The statement's scan and its declarative reading are both TLA+ definitions proven equal by TLC on all small quality strings; every recorded call of the real functions and every command-line run (reads and reported trimmed bases) is validated against them.",
@@ -49,7 +49,7 @@ P = {
             "Definitions from the statement as TLA+ operators; expected errors in 10^-12 fixed point from an independently generated table; every recorded call and --poly-a/--trim-n run validated by TLC.",
             "Expected errors are checked to 1e-12 * (n + 20) absolute, not to the last ulp.", "5/C14"),
     "C15": ("TLC trace validation of demultiplexed runs against the Pipeline sink model",
-            "File of last match name / unknown / untrimmed / nowhere, combinatorial key, a file for every name even if empty, multiset equality with the undemultiplexed twin run.",
+            "File of last match name / unknown / untrimmed / nowhere, combinatorial key (per read, against the model); at the level of the run: a file exists for every adapter name (name combination) even if it stays empty, and the sorted records over all demultiplexed files equal those of a second execution of the same command without demultiplexing (twin run).",
             "Rule R2.", "5/C15"),
     "C16": ("TLC trace validation of --revcomp runs against AdapterCutting!RevComp",
             "Strict-improvement rule, tie keeps the given orientation, trimmed reverse complement with reversed qualities, name marking, counters.",
